@@ -40,6 +40,17 @@ int main(int argc,char** argv){
       Rm[j][i]=-std::sin((long double)th)*cx(std::cos((long double)del),std::sin((long double)del));
       err=std::max(err,maxdiff(toMat(d,comps(C)),mul(dag(Rm),mul(MA,Rm))));
     }
+    if(fam=="ucmu"){   // UTransform(U) = U^dagger A U, UDaggerTransform(U) = U A U^dagger, Rotate(U) = UTransform(U), for a complex (unitary) U
+      gsl_matrix_complex* U=gsl_matrix_complex_alloc(d,d); Mat MU=zeros(d);
+      // a unitary from two plane rotations with phases
+      for(int i=0;i<d;i++) for(int j=0;j<d;j++) MU[i][j]=(i==j)?1:0;
+      for(int k=0;k+1<d;k++){ Mat Rk=zeros(d); for(int i=0;i<d;i++) Rk[i][i]=1; long double th=0.4+0.3*k, de=0.7-0.2*k; Rk[k][k]=std::cos(th); Rk[k+1][k+1]=std::cos(th); Rk[k][k+1]=std::sin(th)*cx(std::cos(de),-std::sin(de)); Rk[k+1][k]=-std::sin(th)*cx(std::cos(de),std::sin(de)); MU=mul(Rk,MU); }
+      for(int i=0;i<d;i++) for(int j=0;j<d;j++) gsl_matrix_complex_set(U,i,j,gsl_complex_rect((double)MU[i][j].real(),(double)MU[i][j].imag()));
+      err=std::max(err,maxdiff(toMat(d,comps(A.UTransform(U))),mul(dag(MU),mul(MA,MU))));
+      err=std::max(err,maxdiff(toMat(d,comps(A.UDaggerTransform(U))),mul(MU,mul(MA,dag(MU)))));
+      err=std::max(err,maxdiff(toMat(d,comps(A.Rotate(U))),mul(dag(MU),mul(MA,MU))));
+      gsl_matrix_complex_free(U);
+    }
     if(fam=="factory"){
       for(int k=0;k<d;k++){ Mat E=zeros(d); E[k][k]=1; err=std::max(err,maxdiff(toMat(d,comps(SU_vector::Projector(d,k))),E)); }
       { Mat E=zeros(d); for(int k=0;k<d;k++) E[k][k]=1; err=std::max(err,maxdiff(toMat(d,comps(SU_vector::Identity(d))),E)); }
